@@ -4,6 +4,7 @@ import (
 	"bytes"
 	"context"
 	"crypto/tls"
+	"encoding/binary"
 	"fmt"
 	"sort"
 	"strings"
@@ -124,10 +125,23 @@ func (ch c10) cases(L int, thorough bool) []c10case {
 			for d := int64(0); d < 4; d++ {
 				out = append(out, c10case{L: L, Eff: eff, Size: d, Type: t, Pos: pos, Mode: "submin", SizeN: fmt.Sprintf("len=%d", d)})
 			}
+			if pos == "startup" && t == 'p' {
+				// length words that spell the first bytes of other protocols a port may be spoken to in (a
+				// PROXY-protocol preface, HTTP, SSH, SMTP, a TLS ClientHello) and their neighbours: lengths
+				// like any other, far above the limit
+				for _, w := range c10magic {
+					v := int64(binary.BigEndian.Uint32([]byte(w)))
+					for _, d := range []int64{v - 1, v, v + 1} {
+						out = append(out, c10case{L: L, Eff: eff, Size: d - 4, Type: t, Pos: pos, Mode: "declared", SizeN: fmt.Sprintf("magic:%q%+d", w, d-v)})
+					}
+				}
+			}
 		}
 	}
 	return out
 }
+
+var c10magic = []string{"PROX", "GET ", "POST", "HEAD", "CONN", "SSH-", "HELO", "EHLO", "\x16\x03\x01\x02", "\x16\x03\x03\x00"}
 
 func (ch c10) Run(c *core.Ctx) {
 	core.AllocSanitizerOn()
@@ -190,7 +204,7 @@ func (ch c10) Run(c *core.Ctx) {
 		rng := core.NewRng(c.Seed, "C10", c.Batch, i)
 		if c.Tier != "thorough" {
 			// seeded subset; boundary sizes always kept
-			keep := k.SizeN == "L" || k.SizeN == "L+1" || rng.Intn(4) == 0
+			keep := k.SizeN == "L" || k.SizeN == "L+1" || rng.Intn(4) == 0 || (strings.HasPrefix(k.SizeN, "magic") && (part+i)%3 == 0)
 			if eff == 1<<24 {
 				keep = (k.SizeN == "L" || k.SizeN == "L+1" || k.SizeN == "L-1") && (k.Type == 'Q' || k.Type == 'd' || k.Type == 'p' || k.Type == 'B') && rng.Intn(3) == 0 || (k.Mode != "body" && rng.Intn(6) == 0) || (k.Size < 2 && rng.Intn(8) == 0)
 			}
@@ -362,6 +376,13 @@ func (ch c10) runCase(c *core.Ctx, envPlain, envAuth *hs.Env, k c10case, idx int
 			pkt = append([]byte{byte((k.Size + 4) >> 24), byte((k.Size + 4) >> 16), byte((k.Size + 4) >> 8), byte(k.Size + 4)}, body...)
 		default:
 			pkt = msg[1:] // untyped: declared length + few bytes
+			if strings.HasPrefix(k.SizeN, "magic") {
+				// what follows the length word is the rest of such a protocol's first line, then a complete
+				// start-up packet and a query: all of it inside the oversized packet
+				pkt = append(append([]byte(nil), pkt[:4]...), []string{"Y TCP4 192.0.2.1 192.0.2.2 56324 5432\r\n", "/ HTTP/1.1\r\nHost: db\r\n\r\n", "2.0-OpenSSH_9.6\r\n", " db.example.org\n", "\n"}[idx%5]...)
+				pkt = append(append(pkt, pg.Startup([][2]string{{"user", "u"}})...), pg.Query("smuggled-behind-a-preface")...)
+				c.Count("startup_lengths_spelling_other_protocols", 1)
+			}
 		}
 		cl := hs.NewClient(envPlain.Dial(sess))
 		stalled := over && k.Mode == "body" && idx%3 == 1 && len(pkt) > 24
